@@ -1160,6 +1160,9 @@ func (ex *Exec) loopEnv(st *State, fr *Frame) *Eval {
 	ev.locals = func(name string) (SV, bool) {
 		return ex.localByName(st, fr, name)
 	}
+	if ev.old != nil {
+		ev.old.locals = ev.locals // a local has no old value: inside old(...) it denotes its current value
+	}
 	for k := range ev.vars {
 		if sv, ok := ex.localByName(st, fr, k); ok {
 			ev.vars[k] = sv
@@ -2126,6 +2129,10 @@ func (ex *Exec) ret(st *State, fr *Frame, x *ssa.Return) {
 			}
 		}
 		ev := ex.contractEnv(st, fr.fn, ct, fr.args, rt, st, fr.entry)
+		ev.unchanged = func() T {
+			tg, _ := ex.frameTargets(st, fr)
+			return ex.frameUnchanged(tg, st, fr.entry)
+		}
 		for i, e := range ct.Ensures {
 			g := ev.Bool(e.E)
 			ex.oblige(st, fnKey, "ensures:"+labelOr(e, i), clauseTags(e, ct), g, where, e.Src)
